@@ -227,22 +227,11 @@ pub fn run(cfg: &Cfg, rep: &mut Rep) {
             let (lo, hi) = gen::reading_range(s, -30000, 30000);
             r.range_i128(lo, hi)
         } else if k % 50 == 25 {
-            // the whole representable range (about 3.27 million years either side of 1900; a year of six or seven digits and
-            // a sign make the longest texts), kept two centuries inside the bounds so that no conversion on the way saturates
+            // the ends of the quantifier (+-30 000 years; five-digit and signed years make the longest texts it contains)
             rep.class("epoch/far-year");
-            let m = 2 * NPC;
-            match r.below(3) {
-                0 => r.range_i128(MIN_NS + m, MAX_NS - m),
-                1 => {
-                    let (lo, hi) = gen::reading_range(s, -1_100_000, -900_000);
-                    r.range_i128(lo, hi)
-                }
-                _ => {
-                    let y = *r.pick(&[-3_000_000i64, -1_000_000, -999_999, -100_000, -99_999, 99_999, 100_000, 999_999, 1_000_000, 3_000_000]);
-                    let (lo, hi) = gen::reading_range(s, y, y);
-                    r.range_i128(lo, hi)
-                }
-            }
+            let y = *r.pick(&[-30_000i64, -29_999, -10_000, -9_999, -1_000, -999, -1, 0, 10_000, 29_999, 30_000]);
+            let (lo, hi) = gen::reading_range(s, y, y);
+            r.range_i128(lo, hi)
         } else {
             gen::rand_reading(&mut r, s, &lats[si])
         };
